@@ -24,10 +24,14 @@ THEOREMS = [
      "forall M : Z, 2 <= M < 2 ^ 31 -> forall x : Z, 0 <= x < M -> neg M x = Some ((- x) mod M)"),
     ("c06_pow",
      "forall M x d : Z, 2 <= M < 2 ^ 31 -> 0 <= x < M -> 0 <= d < 2 ^ 64 -> pow M x d = Some ((x ^ d) mod M)"),
+    ("c06_pow_64",
+     "forall M x d : Z, 2 <= M < 2 ^ 31 -> 0 <= x < M -> 0 <= d < 2 ^ 64 -> pow_loop M 65 x d = inr (Some ((x ^ d) mod M))"),
     ("c06_inv_no_overflow",
      "forall M : Z, 2 <= M < 2 ^ 31 -> forall v : Z, 0 <= v < M -> forall fuel : positive, inv_loop M fuel v <> inr None"),
     ("c06_inv_terminates",
      "forall M : Z, 2 <= M < 2 ^ 31 -> forall v : Z, 0 <= v < M -> forall fuel : positive, v < Zpos fuel -> exists x, inv_loop M fuel v = inr (Some x) /\\ Z.abs x <= M /\\ (x * v) mod M = Z.gcd v M mod M"),
+    ("c06_inv_terminates_64",
+     "forall M : Z, 2 <= M < 2 ^ 31 -> forall v : Z, 0 <= v < M -> exists x, inv_loop M 64 v = inr (Some x) /\\ Z.abs x <= M /\\ (x * v) mod M = Z.gcd v M mod M"),
     ("c06_inv_gcd",
      "forall M : Z, 2 <= M < 2 ^ 31 -> forall v : Z, 0 <= v < M -> exists r, inv M v = Some r /\\ 0 <= r < M /\\ (r * v) mod M = Z.gcd v M mod M"),
     ("c06_inv_correct",
@@ -38,6 +42,20 @@ THEOREMS = [
      "forall M a b : Z, 2 <= M < 2 ^ 31 -> - 2 ^ 63 <= a < 2 ^ 63 -> - 2 ^ 63 <= b < 2 ^ 63 -> exists x y, new M a = Some x /\\ new M b = Some y /\\ 0 <= x < M /\\ 0 <= y < M /\\ (eqb x y = true <-> a mod M = b mod M)"),
     ("c06_bound_needed_refuted_at_2_31",
      "(exists v, - 2 ^ 63 <= v < 2 ^ 63 /\\ new (2 ^ 31) v <> Some (v mod 2 ^ 31)) /\\ (exists v, 0 <= v < 2 ^ 31 /\\ Z.gcd v (2 ^ 31) = 1 /\\ inv_loop (2 ^ 31) big_fuel v = inr None)"),
+    ("c06_read",
+     "forall M : Z, 2 <= M < 2 ^ 31 -> forall v : Z, - 2 ^ 63 <= v < 2 ^ 63 -> read M v = Some (v mod M)"),
+    ("c06_write",
+     "forall v : Z, 0 <= v < 2 ^ 32 -> exists s, render v = Some s /\\ sval s = v"),
+    ("c06_write_canonical",
+     "forall (x y : Z) (s : string), 0 <= x < 2 ^ 32 -> 0 <= y < 2 ^ 32 -> render x = Some s -> render y = Some s -> x = y"),
+    ("c06_model_implies_spec",
+     "forall c : case, model_check c = true -> spec_num c = true"),
+    ("c06_model_implies_spec_strict",
+     "forall c : case, model_check c = true -> spec_strict c = true"),
+    ("c06_write_canonical_numeral",
+     "forall v : Z, 0 <= v < 2 ^ 32 -> exists s, render v = Some s /\\ canon_dec v s = true"),
+    ("c06_lower_bound_needed_refuted_at_1",
+     "exists x d r, 0 <= x < 1 /\\ 0 <= d < 2 ^ 64 /\\ pow 1 x d = Some r /\\ ~ (0 <= r < 1)"),
 ]
 RULE = ("moduli 2,3,4,6,7,11,12 (exhaustive: every operand pair in [0,M)^2 for + - * / == and the assigning forms, every "
         "residue for neg/inv/pow/new incl. non-canonical constructor arguments), 65536, 65537, 998244353, 1000000007, "
@@ -80,6 +98,8 @@ def coq_obs(obs, is_eq):
         return "Panic"
     if is_eq:
         return "(Eq %s %s)" % ("true" if t[1] == "1" else "false", "true" if t[2] == "1" else "false")
+    if t[2] == t[3] == t[4]:
+        return "(ValS %s %s)" % (z(int(t[1])), coq_str(t[2]))
     return "(Val %s %s %s %s)" % (z(int(t[1])), coq_str(t[2]), coq_str(t[3]), coq_str(t[4]))
 
 
@@ -207,7 +227,7 @@ def generate(rng, tier):
                 for op in BINOPS + ["eq"]:
                     cases.append(case(m, op, a, b))
                 for op in BINOPS:
-                    if m <= 7 or thorough or rng.chance(1, 4):
+                    if m <= 4 or thorough or rng.chance(1, 4):
                         cases.append(case(m, op + "a", a, b))
                 # the same pair through non-canonical constructor arguments
                 op = rng.choice(BINOPS + ["eq"] + [o + "a" for o in BINOPS])
@@ -220,7 +240,7 @@ def generate(rng, tier):
             cases.append(case(m, "inv", a))
             cases.append(case(m, "neg", a - m))
             cases.append(case(m, "inv", a + m * rng.range(-5, 5)))
-            for d in list(range(0, 7)) + [1 << 63, U64_MAX, rng.range(0, U64_MAX)]:
+            for d in list(range(0, 5)) + [1 << 63, U64_MAX, rng.range(0, U64_MAX)]:
                 cases.append(case(m, "pow", a, d))
         for v in ctor_args(rng, m, 2):
             cases.append(case(m, rng.choice(["new", "read"]), v))
@@ -233,22 +253,22 @@ def generate(rng, tier):
         pairs += [(rng.choice(rnd), rng.choice(bnd)) for _ in range(nr // 2)]
         pairs += [(rng.choice(bnd), rng.choice(rnd)) for _ in range(nr // 2)]
         for (a, b) in pairs:
-            pick = rng.below(4)
-            for i, op in enumerate(BINOPS):
-                # every pair runs every operator, in one of the two forms (both forms for a quarter of them)
-                if i == pick:
+            for op in BINOPS:
+                # every pair runs every operator, in one of the two forms (thorough: both)
+                if thorough:
                     cases.append(case(m, op, a, b))
                     cases.append(case(m, op + "a", a, b))
                 else:
-                    cases.append(case(m, op + ("a" if rng.chance(1, 2) else ""), a, b))
-            if rng.chance(1, 3):
+                    cases.append(case(m, op + ("a" if rng.chance(1, 3) else ""), a, b))
+            if rng.chance(1, 4):
                 cases.append(case(m, "eq", a, b))
         # b = M - a  (sum exactly M), b = a (difference 0), b = a +- 1
-        for a in bnd + rnd[:6]:
-            for b in {(m - a) % m, a, (a + 1) % m, (a - 1) % m, (m - a - 1) % m, (m - a + 1) % m}:
-                cases.append(case(m, rng.choice(["add", "adda"]), a, b))
-                cases.append(case(m, rng.choice(["sub", "suba"]), a, b))
-                cases.append(case(m, "eq", a, b))
+        for a in bnd + rnd[:3]:
+            for b in sorted({(m - a) % m, a, (a + 1) % m, (a - 1) % m, (m - a - 1) % m, (m - a + 1) % m}):
+                cases.append(case(m, rng.choice(["add", "add", "adda"]), a, b))
+                cases.append(case(m, rng.choice(["sub", "sub", "suba"]), a, b))
+                if thorough or rng.chance(1, 3):
+                    cases.append(case(m, "eq", a, b))
         ca = ctor_args(rng, m, nr)
         for v in ca:
             cases.append(case(m, "new", v))
@@ -302,17 +322,120 @@ def shrink(c):
         out.append(dict(c, op=base_op(c["op"])))
     if c["op"] == "read":
         out.append(dict(c, op="new"))
+    # a failure of / or pow is often a failure of * or inv underneath
+    if c["op"] == "div":
+        out.append(dict(c, op="mul"))
+        out.append(dict(c, op="inv", args=[args[1]]))
+    if c["op"] == "pow":
+        out.append(dict(c, op="mul", args=[args[0], args[0]]))
+    if c["op"] in ("mul", "add", "sub", "neg", "inv"):
+        out.append(dict(c, op="new", args=[args[0]]))
     return out
 
 
+def py_ok(c, obs):
+    """the property, decided with Python integers (independent of the Coq model and of spec_check)"""
+    m, a, op = c["m"], c["args"], base_op(c["op"])
+    t = obs.split()
+    if not t or t[0] != "R":
+        return False
+    if op == "eq":
+        e = "1" if (a[0] - a[1]) % m == 0 else "0"
+        return t[1:] == [e, e]
+    if len(t) != 5 or not (t[1] == t[2] == t[3] == t[4]) or not t[1].isdigit() or str(int(t[1])) != t[1]:
+        return False
+    r = int(t[1])
+    if not 0 <= r < m:
+        return False
+    if op in ("new", "read"):
+        return r == a[0] % m
+    if op == "neg":
+        return r == (-a[0]) % m
+    if op == "inv":
+        return gcdpy(a[0], m) != 1 or (r * a[0]) % m == 1
+    if op == "pow":
+        return r == pow(a[0] % m, a[1], m)
+    if op == "add":
+        return r == (a[0] + a[1]) % m
+    if op == "sub":
+        return r == (a[0] - a[1]) % m
+    if op == "mul":
+        return r == (a[0] * a[1]) % m
+    return gcdpy(a[1], m) != 1 or (r * a[1]) % m == a[0] % m     # div
+
+
+def extra(ctx, known):
+    """implementation-level search (not a proof): many more random operations than Coq evaluates,
+    judged with Python integers, both profiles"""
+    from _driver import Rng, run_impl, short_hash
+    n = 30000 if ctx.tier == "quick" else 600000
+    rng = Rng(ctx.seed * 1000003 + 17).fork("C06-search")
+    ops = BINOPS + [o + "a" for o in BINOPS] + ["eq", "new", "read", "neg", "inv", "pow"]
+    cases = []
+    for _ in range(n):
+        m = rng.choice(BIG + BIG + SMALL)
+        op = rng.choice(ops)
+
+        def operand():
+            k = rng.below(6)
+            if k == 0:
+                return rng.choice([0, 1, 2, m - 1, m - 2, m // 2, m // 2 + 1])
+            if k == 1:
+                return rng.range(I64_MIN, I64_MAX)
+            if k == 2:
+                return clamp_i64(m * rng.range(-(1 << 32), 1 << 32) + rng.range(-2, 2))
+            return rng.below(m)
+        if op in ("new", "read", "neg", "inv"):
+            cases.append(case(m, op, operand()))
+        elif op == "pow":
+            d = rng.choice([rng.range(0, U64_MAX), rng.range(0, 70), (1 << rng.range(0, 63)) - rng.below(2), U64_MAX - rng.below(3)])
+            cases.append(case(m, op, operand(), d))
+        else:
+            cases.append(case(m, op, operand(), operand()))
+    lines = [harness_line(c) for c in cases]
+    violations, bad = [], 0
+    for profile in PROFILES:
+        try:
+            outs = run_impl(ctx.bins[profile], lines)
+        except RuntimeError as e:
+            return {"coverage": {"search_evaluations": 0},
+                    "violations": [{"name": "search-crash", "kind": "broken-correspondence", "nofail": True,
+                                    "payload": {"what": "executor crashed during the search", "log": str(e)[-2000:]}}]}
+        for c, o in zip(cases, outs):
+            if not py_ok(c, o):
+                bad += 1
+                if not violations:
+                    violations.append({"name": "search-%s" % short_hash(harness_line(c) + profile),
+                                       "payload": {"case": c, "profile": profile, "impl_observation": o,
+                                                   "what": "implementation-level search: the result violates the property "
+                                                           "(judged with Python integers)"}})
+    return {"coverage": {"search_evaluations": len(cases) * len(PROFILES), "search_failures": bad,
+                         "search_rule": "uniform choice of modulus (14) and operation (14), operands: boundary residues, "
+                                        "uniform residues, uniform i64, multiples of M +-2; judged with Python integers"},
+            "violations": violations}
+
+
 MANIFEST = {
-    "text": "Theorems (Coq, no axioms) about an executable Gallina model of rlib_mint::Modular<M> over Z with explicit "
-            "i32/u32/i64 width checks, for every modulus 2 <= M < 2^31; see evidence for the list. The model is tied to the "
-            "code on every run: the executor instantiates 14 moduli (small ones exhaustively, the competition primes and moduli "
-            "adjacent to 2^31 on boundary and random operands), in the debug and the release profile, and Coq proves "
-            "model = implementation and implementation |= spec on every case.",
+    "text": "Theorems (Coq 8.16.1, closed under the global context) about an executable Gallina model of rlib_mint::Modular<M> "
+            "over Z in which every cast wraps and every + - * is overflow-checked (i32/u32/i64), for EVERY modulus "
+            "2 <= M < 2^31, prime or composite: new v = Some (v mod M) for every i64 v (c06_new, c06_read); + - * neg return "
+            "Some of the canonical representative of the integer result, i.e. no intermediate leaves its Rust type "
+            "(c06_add/sub/mul/neg); pow = x^d mod M for every d < 2^64 within 64 iterations (c06_pow, c06_pow_64); the i32 loop "
+            "of inv never overflows for any fuel (c06_inv_no_overflow), ends within 64 iterations (c06_inv_terminates, "
+            "c06_inv_terminates_64) and returns r in [0,M) with r*v = gcd(v,M) mod M, hence a true inverse of every unit "
+            "(c06_inv_gcd, c06_inv_correct); (x / y) * y = x for y coprime to M (c06_div); == on representatives decides "
+            "congruence (c06_canonical_eq); the u32 digit loop behind Display/Debug/Writable stays in its buffer and its text "
+            "denotes the value, so printing is canonical (c06_write, c06_write_canonical); witnesses that both bounds are "
+            "needed (c06_bound_needed_refuted_at_2_31, c06_lower_bound_needed_refuted_at_1); and model_check c = true -> "
+            "spec_strict c = true (c06_model_implies_spec_strict: range, ring/inverse equations and canonical numeral carried "
+            "from the model to every matching case by proof). The model is tied to the code on every run: the executor instantiates "
+            "14 moduli (2..12 exhaustively; 65536, 65537, 998244353, 10^9+7, 2^31-1, 2^31-2, 2^31-19 on boundary/random operands), "
+            "debug and release profile, and Coq proves model = implementation and implementation |= spec on every case; an "
+            "implementation-level random search judged with Python integers runs in addition.",
     "level_note": "Trusted: Coq kernel + vm_compute; the Rust executor and the Python case printer; the Rust integer semantics "
-                  "written into the model (casts wrap, arithmetic is checked); theorems are about the model, the correspondence "
-                  "is sampled on 14 moduli.",
+                  "written into the model (casts keep the low bits, arithmetic is checked, / and % truncate); Readable is new "
+                  "applied to the parsed i64 (the parser is C08); theorems are about the model, the correspondence is sampled on "
+                  "14 moduli; spec_check additionally compares every text with the standard library's decimal printer, "
+                  "which is evaluated per case (vm_compute), not covered by c06_model_implies_spec_strict.",
     "technique": "Coq proof over Gallina model + vm_compute correspondence batches against the Rust crate (debug and release)",
 }
